@@ -231,3 +231,118 @@ Theorem pcall_recovery_dangle_free : forall sp base s,
   (forall u, In u (vuvcache s') -> uv_index (uvat (vuvs s') u) < base /\ uv_closed (uvat (vuvs s') u) = false).
 Proof. exact FrameFacts.pcall_recovery_dangle_free. Qed.
 Print Assumptions pcall_recovery_dangle_free.
+
+(* ---- tables of globals of threads, environments of functions (coq/Fenv/FenvModel.v; wave 5) ----
+   The model is tied to the interpreter by the C3Env cases (random operation trees run through the
+   base library and through the host API). For all states, contexts, operations: *)
+From GL Require Import Fenv.FenvModel Fenv.FenvFacts.
+
+(* coroutine.create / coroutine.wrap / NewThread: the new thread gets the table of globals its
+   creator has at that moment (lua_newthread), nothing else changes *)
+Theorem thread_env_inherited_at_creation :
+  forall cx s k j w f, aget (s_F s) j = Some f ->
+    let s' := simple_step cx (OCoCreate k j w) s in
+    let c := length (s_ths s) in
+    aget (s_C s') k = Some c /\
+    getth s' c = mkTh (t_env (getth s (c_th cx))) f false w /\
+    (forall t, (t < length (s_ths s))%nat -> getth s' t = getth s t) /\
+    s_fns s' = s_fns s /\ s_tabs s' = s_tabs s /\ s_out s' = s_out s.
+Proof. exact cocreate_inherits_creator_env. Qed.
+Print Assumptions thread_env_inherited_at_creation.
+
+(* setfenv(0, t): only the running thread's table is replaced (threads created earlier keep theirs) *)
+Theorem setfenv0_only_this_thread :
+  forall cx s t, (c_th cx < length (s_ths s))%nat ->
+    let s' := simple_step cx (OSetT t) s in
+    t_env (getth s' (c_th cx)) = t /\
+    (forall th, th <> c_th cx -> getth s' th = getth s th) /\
+    s_fns s' = s_fns s /\ s_tabs s' = s_tabs s /\ s_out s' = s_out s.
+Proof. exact setT_only_this_thread. Qed.
+Print Assumptions setfenv0_only_this_thread.
+
+Theorem debug_setfenv_only_that_thread :
+  forall cx s k t c, aget (s_C s) k = Some c -> t_wrap (getth s c) = false -> (c < length (s_ths s))%nat ->
+    let s' := simple_step cx (OSetCo k t) s in
+    t_env (getth s' c) = t /\ (forall th, th <> c -> getth s' th = getth s th) /\ s_fns s' = s_fns s.
+Proof. exact setCo_only_that_thread. Qed.
+Print Assumptions debug_setfenv_only_that_thread.
+
+(* loadstring / load / LoadString: the chunk's environment is the loading thread's table of globals *)
+Theorem loaded_chunk_takes_thread_env :
+  forall cx s k body,
+    let s' := simple_step cx (OLoad k body) s in
+    let f := length (s_fns s) in
+    aget (s_F s') k = Some f /\ getfn s' f = mkFn (t_env (getth s (c_th cx))) body /\
+    (forall g, (g < length (s_fns s))%nat -> getfn s' g = getfn s g) /\ s_ths s' = s_ths s.
+Proof. exact load_takes_thread_env. Qed.
+Print Assumptions loaded_chunk_takes_thread_env.
+
+(* a closure's environment is its creator's (not the thread's) *)
+Theorem closure_takes_creator_env :
+  forall th fcur d s k body,
+    let cx := mkCtx th (Some fcur) d in
+    let s' := simple_step cx (OClosure k body) s in
+    let f := length (s_fns s) in
+    aget (s_F s') k = Some f /\ getfn s' f = mkFn (f_env (getfn s fcur)) body /\
+    (forall g, (g < length (s_fns s))%nat -> getfn s' g = getfn s g) /\ s_ths s' = s_ths s.
+Proof. exact closure_inherits_creator_env. Qed.
+Print Assumptions closure_takes_creator_env.
+
+(* free names are read and assigned in the running function's environment *)
+Theorem free_name_read_through_function_env :
+  forall th f d s x,
+    let cx := mkCtx th (Some f) d in
+    s_out (simple_step cx (ORead x) s) =
+      (match aget (nth (f_env (getfn s f)) (s_tabs s) []) x with Some v => v | None => nilv end) :: s_out s.
+Proof. exact free_name_through_function_env. Qed.
+Print Assumptions free_name_read_through_function_env.
+
+Theorem free_name_assigned_in_function_env :
+  forall th f d s x v, (f_env (getfn s f) < length (s_tabs s))%nat ->
+    let cx := mkCtx th (Some f) d in
+    let s' := simple_step cx (OWrite x v) s in
+    aget (nth (f_env (getfn s f)) (s_tabs s') []) x = Some v /\
+    (forall e, e <> f_env (getfn s f) -> nth e (s_tabs s') [] = nth e (s_tabs s) []) /\
+    s_fns s' = s_fns s /\ s_ths s' = s_ths s.
+Proof. exact free_name_write_through_function_env. Qed.
+Print Assumptions free_name_assigned_in_function_env.
+
+Theorem setfenv_f_only_that_function :
+  forall cx s k t f, aget (s_F s) k = Some f -> (f < length (s_fns s))%nat ->
+    let s' := simple_step cx (OSetF k t) s in
+    getfn s' f = mkFn t (f_body (getfn s f)) /\
+    (forall g, g <> f -> getfn s' g = getfn s g) /\ s_ths s' = s_ths s.
+Proof. exact setF_only_that_function. Qed.
+Print Assumptions setfenv_f_only_that_function.
+
+Theorem setfenv1_only_running_function :
+  forall th f d s t, (f < length (s_fns s))%nat ->
+    let s' := simple_step (mkCtx th (Some f) d) (OSetSelf t) s in
+    getfn s' f = mkFn t (f_body (getfn s f)) /\
+    (forall g, g <> f -> getfn s' g = getfn s g) /\ s_ths s' = s_ths s.
+Proof. exact setSelf_only_running_function. Qed.
+Print Assumptions setfenv1_only_running_function.
+
+(* whole runs (any nesting of calls, loaded chunks, coroutines): functions and threads are never
+   removed or renumbered, bodies and the body function / creation mode of a thread never change *)
+Theorem env_run_only_extends :
+  forall n cx os s s', env_exec n cx os s = Some s' -> extends s s'.
+Proof. exact exec_extends. Qed.
+Print Assumptions env_run_only_extends.
+
+(* the first resume runs the body in the coroutine's own thread (table of globals fixed at creation
+   or by debug.setfenv on it), whatever the resumer's table is by then *)
+Theorem coroutine_body_runs_in_own_thread :
+  forall n cx k rest s c, aget (s_C s) k = Some c -> t_started (getth s c) = false -> (c_depth cx < maxdepth)%nat ->
+    env_exec (S n) cx (OCoResume k :: rest) s =
+      match env_exec n (mkCtx c (Some (t_fn (getth s c))) (S (c_depth cx))) (f_body (getfn s (t_fn (getth s c)))) (set_started s c) with
+      | Some s' => env_exec n cx rest s'
+      | None => None
+      end.
+Proof. exact resume_runs_in_own_thread. Qed.
+Print Assumptions coroutine_body_runs_in_own_thread.
+
+Theorem env_exec_fuel_mono :
+  forall n cx os s s', env_exec n cx os s = Some s' -> forall m, (n <= m)%nat -> env_exec m cx os s = Some s'.
+Proof. exact exec_fuel_mono. Qed.
+Print Assumptions env_exec_fuel_mono.
